@@ -4,6 +4,8 @@ calls on a real SQLite database.  No oracle lives here: what is required comes f
 import json
 import os
 import sqlite3
+from datetime import date
+from decimal import Decimal
 
 from . import tlc, tlaval
 from .tlc import MachineryError
@@ -113,8 +115,11 @@ def term_key(term):
 # ------------------------------------------------------------------------------------------------
 # the real database
 
-ROWS_T = [(1, 'abcdef', 'xy', 1, 'B1'), (2, 'ghijkl', 'zw', 2, 'B2'), (3, 'mnopqr', 'xy', None, 'B3')]
+ROWS_T = [(1, 'abcdef', 'xy', 1, 'B1', '2021-06-01', '10.25'), (2, 'ghijkl', 'zw', 2, 'B2', '2020-02-29', '26.25'),
+          (3, 'mnopqr', 'xy', None, 'B3', None, None)]
 ROWS_K = [(1, 2, 'k1'), (2, None, 'k2')]
+ROWS_G = [(1, 'g1'), (2, 'g2'), (3, 'g3')]
+LINKS = [(1, 1), (2, 1), (2, 2)]          # (T, G)
 
 
 def define(db):
@@ -123,11 +128,18 @@ def define(db):
         tag = Optional(str)
         n = Optional(int)
         big = Optional(str, lazy=True)
+        d = Optional(date)
+        amount = Optional(Decimal, precision=10, scale=2)
         kids = Set('K')
+        groups = Set('G')
 
     class K(db.Entity):
         t = Optional(T)
         label = Optional(str)
+
+    class G(db.Entity):
+        label = Optional(str)
+        members = Set(T)
 
 
 class RealDb(object):
@@ -142,15 +154,21 @@ class RealDb(object):
         self.db.bind('sqlite', self.path, create_db=True)
         self.db.generate_mapping(create_tables=True)
         self.raw = sqlite3.connect(self.path, isolation_level=None, check_same_thread=False)
+        self.link = self.db.T.groups.table
+        self.link_cols = (self.db.G.members.columns[0], self.db.T.groups.columns[0])      # (column of T, column of G)
         self.restore()
 
     def restore(self):
         c = self.raw
         c.execute('BEGIN IMMEDIATE')
+        c.execute('DELETE FROM "%s"' % self.link)
         c.execute('DELETE FROM K')
+        c.execute('DELETE FROM G')
         c.execute('DELETE FROM T')
-        c.executemany('INSERT INTO T (id, name, tag, n, big) VALUES (?, ?, ?, ?, ?)', ROWS_T)
+        c.executemany('INSERT INTO T (id, name, tag, n, big, d, amount) VALUES (?, ?, ?, ?, ?, ?, ?)', ROWS_T)
         c.executemany('INSERT INTO K (id, t, label) VALUES (?, ?, ?)', ROWS_K)
+        c.executemany('INSERT INTO G (id, label) VALUES (?, ?)', ROWS_G)
+        c.executemany('INSERT INTO "%s" ("%s", "%s") VALUES (?, ?)' % ((self.link,) + self.link_cols), LINKS)
         c.execute('COMMIT')
 
     def close(self):
@@ -189,9 +207,32 @@ def _q_count(T, p):
     return select(x for x in T if x.n > p).count()
 
 
+def _q_m2m(T, p):
+    return select(x.name for x in T for g in x.groups if g.id >= p)[:]
+
+
+def _q_mcount(T, p):
+    return select(x for x in T for g in x.groups if g.id >= p).count()
+
+
+def _q_maxdate(T, p):
+    return select(x.d for x in T if x.n >= p).max()
+
+
+def _q_sumdec(T, p):
+    return select(x.amount for x in T if x.n >= p).sum()
+
+
+def _q_dyn(T, p):
+    # a code object compiled at run time and dropped after the execution; the value is part of its text
+    f = eval('lambda x: x.n > %d' % p)
+    return [o.name for o in T.select(f)]
+
+
 STRQ = "x.name for x in T if x.n > p"
 RAW = {'raw_where': "select name from T where n > $p", 'raw_pct': "select 7 % 4, $p", 'raw_pct2': "select 7 %% 4, $p"}
-ORM = {'slice': _q_slice, 'getattr': _q_getattr, 'cmp': _q_cmp, 'gt': _q_gt, 'count': _q_count}
+ORM = {'slice': _q_slice, 'getattr': _q_getattr, 'cmp': _q_cmp, 'gt': _q_gt, 'count': _q_count, 'm2m': _q_m2m,
+       'mcount': _q_mcount, 'maxdate': _q_maxdate, 'sumdec': _q_sumdec, 'dyn': _q_dyn}
 
 
 def canon(r):
@@ -229,6 +270,8 @@ def modify(db, kind, k):
     """The k-th modification of the session's view (deterministic: the data is a function of the view)."""
     if kind == 'ModIns':
         db.T(name='ins%d-uvwxyz' % k, tag='in', n=20 + k)
+    elif kind == 'ModM2M':
+        db.T[3].groups.add(db.G[k])         # nothing but a many-to-many link changes
     else:
         t = db.T[2]
         t.n = 10 + k
